@@ -78,10 +78,11 @@ def main():
     if len(sys.argv) > 1 and sys.argv[1] == '--reconfirm':
         return reconfirm(sys.argv[2:])
     only = sys.argv[1:]
-    # round 1 lives in /tmp/seed_<prop>, round 2 in /tmp/seed2_<prop> (filed as <prop>_3, <prop>_4)
-    for d in sorted(glob.glob('/tmp/seed_*/_out')) + sorted(glob.glob('/tmp/seed2_*/_out')):
-        rnd = 2 if '/seed2_' in d else 1
-        prop = d.split('/')[2].replace('seed2_', '').replace('seed_', '')
+    # round 1 lives in /tmp/seed_<prop>, round N in /tmp/seedN_<prop> (filed as <prop>_<2N-1>, <prop>_<2N>)
+    for d in sorted(glob.glob('/tmp/seed_*/_out')) + sorted(glob.glob('/tmp/seed[0-9]_*/_out')):
+        mm = re.match(r'seed(\d?)_(\w+)$', d.split('/')[2])
+        rnd = int(mm.group(1) or 1)
+        prop = mm.group(2)
         if only and prop not in only:
             continue
         for j in (1, 2):
